@@ -276,6 +276,35 @@ def runFrom (p : SeqPath) (st : SeqState) (k : Nat) : List SeqItem → List (Nat
 def runSeq (p : SeqPath) (items : List SeqItem) : List (Nat × SiteObs) :=
   runFrom p (SeqState.init p items) 0 items
 
+/-! ## a function *template* declared more than once
+
+`check_existing_functions` recognises an earlier declaration by `existing_signature.param_types == signature.param_types`.
+Every declaration of a template registers its own template type parameters, so two declarations of
+`template<typename T> R f(T a)` have different `param_types` (another `TypeId` for `T`): the later one - prototype or
+definition - is **not** combined with the earlier one but registered and pushed as one more overload.  A template whose
+parameter types mention no template parameter (`template<typename T> R f(int a)`) is combined like an ordinary function. -/
+
+def PTy.mentionsParam : PTy → Bool
+  | .conc _ => false
+  | _ => true
+
+def findDecl (id : Nat) : List SeqItem → Option (Nat × TCand)
+  | [] => none
+  | .decl s c :: is => if c.id = id then some (s, c) else findDecl id is
+  | _ :: is => findDecl id is
+
+/-- the unit as the type checker takes it: a later declaration of a function whose parameter types mention a template
+    parameter is a declaration of a further overload (with the later declaration's default arguments); every other
+    later declaration stays a `redecl` (which changes nothing) -/
+def elaborate (items : List SeqItem) : List SeqItem :=
+  items.map fun i =>
+    match i with
+    | .redecl id nd =>
+      match findDecl id items with
+      | some (s, c) => if c.params.any (fun q => q.pat.mentionsParam) then .decl s { c with nonDefault := nd } else i
+      | none => i
+    | _ => i
+
 /-! ## the one piece of state a resolution leaves behind: the instantiation registry
 
 `find_overload_casts` turns a template candidate into a concrete signature with `build_function_template_signature` /
